@@ -3,7 +3,7 @@
    `tail_rec_rewrite` = optimize_function_by_tailrec_rewrite (one function; hir_lowering.rs
    optimize_by_tail_rec_rewrite maps it over Sources.functions = `tail_rec_program`).
 
-   Parameters of the mirror:
+   Arguments of the mirror besides the function:
      tp    : the name "_tailrec_param_<x>" made for parameter x (heap.alloc_string(tail_rec_param_name(..)))
      k     : the next temporary of the heap's counter; the i-th heap.alloc_temp_str() of a run returns name k + i
              (the harness numbers the temporaries a run allocated in allocation order above all other names)
